@@ -33,6 +33,7 @@ func init() {
 		return res
 	}})
 	register(&Family{Name: "rt.c19", Gen: genC19RT, Run: runC19RT})
+	register(&Family{Name: "rt.c19conc", Gen: genC19Conc, Run: runC19Conc})
 }
 
 // genC19Sim walks the exec faults of the C09 enumeration.
@@ -167,6 +168,89 @@ func runC19RT(t *testing.T, sc *world.Scenario) *check.Result {
 	res.Events = 1
 	res.Nontrivial = true
 	res.State(mode)
+	return res
+}
+
+// rt.c19conc: several callers (sensor monitor, control loops, RPM monitors of several fans) run the SAME
+// executable at the same time on the real clock; some invocations hang beyond the deadline. Every call -
+// the hanging ones and a quick one issued while they hang - must return within its own timeout + margin.
+func genC19Conc(seed uint64, tier string) *world.Scenario {
+	sc := &world.Scenario{Family: "rt.c19conc", Seed: seed, Params: map[string]float64{}}
+	r := kernel.NewRand(seed, "c19conc")
+	sc.Params["timeoutMs"] = float64(kernel.Pick(r, 1000, 1000, 2000))
+	sc.Params["hangers"] = float64(r.Range(2, 4))
+	sc.Params["quick"] = float64(r.Range(1, 2))
+	sc.Params["staggerMs"] = float64(r.Range(0, 120))
+	sc.Variant = fmt.Sprintf("hangers=%d", int(sc.Params["hangers"]))
+	return sc
+}
+
+func runC19Conc(t *testing.T, sc *world.Scenario) *check.Result {
+	res := check.NewResult(sc.Family, sc.Seed)
+	res.ScHash = scHash(sc)
+	timeout := time.Duration(sc.Params["timeoutMs"]) * time.Millisecond
+	hangers, quick := int(sc.Params["hangers"]), int(sc.Params["quick"])
+	stagger := time.Duration(sc.Params["staggerMs"]) * time.Millisecond
+	res.Sample = fmt.Sprintf("rt.c19conc timeout=%s hangers=%d quick=%d stagger=%s", timeout, hangers, quick, stagger)
+	dir, err := os.MkdirTemp(shmBase2(), fmt.Sprintf("verif-c19c-%d-", os.Getpid()))
+	if err != nil {
+		res.Harness = err.Error()
+		return res
+	}
+	defer os.RemoveAll(dir)
+	_ = os.Chmod(dir, 0755)
+	exe := filepath.Join(dir, "cmd.sh")
+	body := fmt.Sprintf("#!/bin/sh\nif [ \"$1\" = hang ]; then sleep %.1f; fi\necho 7\n", (3 * timeout).Seconds())
+	if err := os.WriteFile(exe, []byte(body), 0755); err != nil {
+		res.Harness = err.Error()
+		return res
+	}
+	_ = os.Chmod(exe, 0755)
+	type outcome struct {
+		kind string
+		el   time.Duration
+		out  string
+		err  error
+	}
+	n := hangers + quick
+	done := make(chan outcome, n)
+	call := func(kind string, delay time.Duration) {
+		time.Sleep(delay)
+		start := time.Now()
+		out, err := util.SafeCmdExecution(exe, []string{kind}, timeout)
+		done <- outcome{kind, time.Since(start), out, err}
+	}
+	for i := 0; i < hangers; i++ {
+		go call("hang", time.Duration(i)*stagger/time.Duration(hangers))
+	}
+	for i := 0; i < quick; i++ {
+		go call("quick", stagger+time.Duration(50+100*i)*time.Millisecond)
+	}
+	margin := 1500 * time.Millisecond
+	deadline := time.After(time.Duration(hangers+1)*timeout + 8*time.Second)
+	for got := 0; got < n; got++ {
+		select {
+		case o := <-done:
+			res.Probe("calls-judged")
+			sig := fmt.Sprintf("concurrent same-executable call=%s", o.kind)
+			if o.el > timeout+margin {
+				res.Violate("C19", "returns-in-time", "returns-in-time "+sig, 0, nil, "%d hanging and %d quick calls of one executable at the same time (timeout %s): a %s call returned after %s (bound %s)", hangers, quick, timeout, o.kind, o.el.Round(time.Millisecond), timeout+margin)
+			}
+			if o.kind == "hang" && o.err == nil {
+				res.Violate("C19", "error-reported", "error-reported "+sig, 0, nil, "a call that ran into its deadline returned no error (output %q)", trunc(o.out, 40))
+			}
+			if o.kind == "quick" && (o.err != nil || o.out != "7") {
+				res.Violate("C19", "output-returned", "output-returned "+sig, 0, nil, "the quick call returned %q, %v after %s", trunc(o.out, 40), o.err, o.el.Round(time.Millisecond))
+			}
+		case <-deadline:
+			res.Probe("calls-judged")
+			res.Violate("C19", "returns-in-time", "returns-in-time concurrent same-executable call=lost", 0, nil, "only %d of %d concurrent calls had returned when the watchdog expired", got, n)
+			got = n
+		}
+	}
+	res.Events = n
+	res.Nontrivial = true
+	res.State(sc.Variant)
 	return res
 }
 
